@@ -239,6 +239,35 @@ class C03(ValProp):
         return out
 
 
+def boundary_value(g, t, v):
+    """with probability 0.4 replace the initial value of a list / bitlist by one whose length sits just
+    above a chunk / subtree boundary (so that the first pops and appends cross it), last element non-zero"""
+    r = g.rng
+    if r.random() > 0.4 or is_basic(t):
+        return v
+    if kind(t) == 'bl':
+        c = [b + 1 for b in (256, 512, 768, 1024, 8, 16) if b + 1 <= t[1]]
+        if not c:
+            return v
+        n = r.choice(c)
+        return g.bits(n - 1) + '1'
+    if kind(t) == 'list' and is_basic(t[1]):
+        per = 32 // (UINT_W.get(t[1], 1))
+        c = [per * k + d for k in (1, 2, 3, 4, 8) for d in (0, 1) if 0 < per * k + d <= min(t[2], 140)]
+        if not c:
+            return v
+        n = r.choice(c)
+        one = '1' if t[1] == 'bool' else str(r.randint(1, 255))
+        return ['s'] + [g.val(t[1]) for _ in range(n - 1)] + [one]
+    if kind(t) == 'list':
+        c = [k + d for k in (2, 4, 8) for d in (0, 1) if k + d <= min(t[2], 9)]
+        if not c:
+            return v
+        n = r.choice(c)
+        return ['s'] + [g.val(t[1], 4) for _ in range(n)]
+    return v
+
+
 class HistProp(Prop):
     p_invalid = 0.0
 
@@ -246,6 +275,7 @@ class HistProp(Prop):
         out = []
         for _ in range(self.n(tier)):
             t, v = self.tv(g, tier, mutable=True)
+            v = boundary_value(g, t, v)
             nops = g.rng.choice([5, 20, 60] if tier == 'quick' else [5, 20, 60, 200])
             if not is_basic(t) and kind(t) in ('cont', 'union', 'vec') and nops > 20:
                 nops = 20
@@ -305,6 +335,18 @@ class C04(HistProp):
 class C14(HistProp):
     pid = 'C14'
     p_invalid = 0.35
+
+    def generate(self, g, tier, focus=None):
+        out = HistProp.generate(self, g, tier)
+        # construction: every spelling of the constructor arguments, valid and invalid values
+        for _ in range(self.n(tier) * 2):
+            t = g.ty(g.rng.choice([1, 2, 2, 3]), composite_only=g.rng.random() < 0.8)
+            v = g.invalid_val(t) if g.rng.random() < 0.6 else g.val(t, 20)
+            if v is None:
+                continue
+            out.append(show(['ctor', t, g.rng.choice(g.spellings(t)), v]))
+        return out
+
     quick_n = 150
     thorough_n = 2500
     rule = ('random histories in which 35% of the ops violate a constraint in the state they are applied to (over-limit '
@@ -315,6 +357,19 @@ class C14(HistProp):
     def compare(self, case, py, mo, stats):
         out = []
         bump(stats, 'kinds', kind(case[1]))
+        if case[0] == 'ctor':
+            bump(stats, 'ops', 'ctor:' + case[2] + (':invalid' if mo['wt'] != '1' else ''))
+            if mo['wt'] != '1':
+                if py.get('p.ctor') != 'err':
+                    out.append(F('prop', 'constructor accepted a value that violates the type (%s spelling)' % case[2], py.get('p.read'), 'must raise'))
+            else:
+                if py.get('p.ctor') != 'ok':
+                    out.append(F('corr', 'constructor rejected a valid value (%s spelling)' % case[2], 'err', 'ok'))
+                elif py.get('p.root') != mo['s.root'] or py.get('p.bytes') != mo['s.bytes']:
+                    out.append(F('prop', 'constructed value (%s spelling) differs from the spec' % case[2], py.get('p.root'), mo['s.root']))
+            if (mo['i.root'] != 'err') != (mo['wt'] == '1'):
+                out.append(F('model', 'construct ok/err ~ WT', mo['i.root'], mo['wt']))
+            return out
         if py.get('p.ctor') == 'err':
             return [F('prop', 'ctor', 'err', 'valid value must be constructible')]
         prev_root = py.get('p.root0')
